@@ -26,14 +26,17 @@ REGISTRATION = {
             "defrag_abs_perm (repaired defrag only relocates; loop invariant over deferred block copies), defragCore_compact + "
             "full_only_without_room (ErrKvCacheFull only with fewer free cells than tokens), rejected_forward_abs, "
             "forward_abs_perm (placement only uses unowned cells), mask_exact* (the mask agrees with the cell metadata and the "
-            "padded range covers the sequence; with SetCausal/Except: mask_exact_pass), reserve_mask_exact, canResume_sound "
-            "(repaired CanResume approves only complete windows), inv_run. WrapperCache: wrapper_forward_refines, "
+            "padded range covers the sequence; with SetCausal/Except: mask_exact_pass), reserve_mask_exact, canResume_sound / "
+            "canResume_sound_on_contract / approved_resume_on_contract (repaired CanResume approves only complete windows; along "
+            "contract-keeping histories with no hypothesis on the state; the resumed token is then shown every position of its "
+            "window), posBound_run, inv_run. WrapperCache: wrapper_forward_refines, wrapper_copyPrefix_abs, wrapper_remove_ok_refines, "
             "wrapper_rejected_batch_spec (a rejected wrapped batch leaves every wrapped cache's abstract state = before minus "
             "eviction), wrapper_mask_exact; EncoderCache: encoder_cached_exact. The pinned Remove left a half-done removal when it "
             "refused (finding F28, fixed 524980fd8; witnesses F28_*; refused_remove_then_clear for the pinned code; the repaired "
             "Remove is proved atomic, removeV_error_unchanged); windowed caches refine a spec that contains the eviction (F15 known). "
             "Tie: decision tables regenerated from the tree on every run (mask bit, eviction threshold, Remove outcome, CopyPrefix "
-            "owners, StartForward placement over all 5-cell occupancy patterns) consumed by Tie/C06.lean with decide; model = code "
+            "owners, StartForward placement over all 5-cell occupancy patterns, CanResume over every subset of held positions) consumed "
+            "by Tie/C06.lean with decide, and the probed variant pinned (variant_is_all_fixed); model = code "
             "on thousands of generated histories per run (exposed entries + data per batch token, abstraction and exact "
             "cell/row/range layout after every operation), and the property evaluated on the real cache against a pure-Go "
             "shadow specification (mask through Cache.Get, K and V rows of every layer); required-branch coverage fails closed.",
